@@ -331,7 +331,7 @@ def _load_yaml_or_json(data: bytes, content_type: Optional[str]) -> Union[dict[s
     if content_type == "application/json":
         try:
             return json.loads(data.decode())
-        except ValueError as err:
+        except (ValueError, RecursionError) as err:  # RecursionError: nesting deeper than the interpreter's stack
             return GeneratorError(header=f"Invalid JSON from provided source: {err}")
     else:
         try:
